@@ -443,9 +443,7 @@ impl GitignoreBuilder {
         if line.starts_with("#") {
             return Ok(self);
         }
-        if !line.ends_with("\\ ") {
-            line = line.trim_right();
-        }
+        line = trim_trailing_spaces(line);
         if line.is_empty() {
             return Ok(self);
         }
@@ -529,6 +527,38 @@ impl GitignoreBuilder {
         // release.
         self.case_insensitive = yes;
         Ok(self)
+    }
+}
+
+/// Trims trailing spaces from a gitignore line like git does: a trailing run
+/// of spaces is removed unless it is escaped with a backslash. A backslash
+/// always escapes the character following it, so in `foo\ ` followed by more
+/// spaces only the unescaped spaces are removed.
+fn trim_trailing_spaces(line: &str) -> &str {
+    let bytes = line.as_bytes();
+    let mut last_space = None;
+    let mut i = 0;
+    while i < bytes.len() {
+        match bytes[i] {
+            b' ' => {
+                if last_space.is_none() {
+                    last_space = Some(i);
+                }
+            }
+            b'\\' => {
+                // Skip the escaped byte. A trailing lone backslash is kept
+                // as is (and reported as a dangling escape by the glob
+                // parser).
+                i += 1;
+                last_space = None;
+            }
+            _ => last_space = None,
+        }
+        i += 1;
+    }
+    match last_space {
+        Some(i) => &line[..i],
+        None => line,
     }
 }
 
